@@ -161,7 +161,7 @@ class Ctx:
         return d
 
     def tlc(self, sub, module, cfg=None, workers=None, timeout=600, simulate=None, depth=None,
-            extra=None, heap="8g", files=None, dfs=False, workdir=None, label=None, coverage=False,
+            extra=None, heap="4g", files=None, dfs=False, workdir=None, label=None, coverage=False,
             count=True):
         """Run TLC on specs/<sub>/<module>.tla with <cfg>. files: {name: path or text} copied into the run dir.
         Returns TLCResult. Never raises on invariant violation; the caller decides what it means."""
